@@ -15,6 +15,7 @@ RULE = (
     ' Also: interrupt-like BaseExceptions at every hook position; classes that got their hooks after they were already in use (assigned to the class / one callable per instance); *_children hooks that re-file a child.'
     ' Also: del n.children detaches from n only, whatever editing hooks did.'
     " Also: hooks returning False, exceptions reaching the caller unreplaced, hooks editing the caller's own list."
+    ' Rounds 11-14: arming/cooperative/per-instance hooks, warnings as errors, hooks filing another node below the receiver, raising post hook in a link constructor.'
 )
 ASSUMPTIONS = [
     "layer 1 (successful calls, refused calls and parent assignments aborted by a hook): the complete hook log equals the closed-form log derived from the protocol statement",
